@@ -62,6 +62,14 @@ impl WalletScenario {
     }
 
     fn after_op(&self, s: &mut WalletSim, ch: &mut Choices, ctx: &mut RunCtx, full: bool) -> SimResult {
+        if let Some(w) = std::env::var("ZSIM_WATCH_CP").ok().and_then(|x| x.parse::<u32>().ok()) {
+            for t in ["sapling", "orchard", "ironwood"] {
+                let has: bool = s.conn.query_row(&format!("SELECT EXISTS(SELECT 1 FROM {t}_tree_checkpoints WHERE checkpoint_id = ?1)"), [w], |r| r.get(0)).unwrap_or(false);
+                let n: i64 = s.conn.query_row(&format!("SELECT COUNT(*) FROM {t}_tree_checkpoints"), [], |r| r.get(0)).unwrap_or(0);
+                let mn: Option<u32> = s.conn.query_row(&format!("SELECT MIN(checkpoint_id) FROM {t}_tree_checkpoints"), [], |r| r.get(0)).unwrap_or(None);
+                eprintln!("  [{}] {t}: checkpoint {w} present={has} total={n} min={mn:?}", ctx.seq);
+            }
+        }
         if std::env::var_os("ZSIM_DEBUG").is_some() {
             for t in ["sapling", "orchard", "ironwood"] {
                 let rh: Vec<(i64, Option<u32>, Option<Vec<u8>>)> = s.conn.prepare(&format!("SELECT shard_index, subtree_end_height, root_hash FROM {t}_tree_shards ORDER BY 1")).unwrap().query_map([], |r| Ok((r.get(0)?, r.get(1)?, r.get(2)?))).unwrap().map(|x| x.unwrap()).collect();
